@@ -43,6 +43,18 @@ STRENGTHENED = {
  ("C10","r4m1"): "period-2 full-size operands at every second modulus size in the ten bits above each packing-class limit (also caught by C20)",
  ("C10","r4m4"): "multi-prime back end at the modulus sizes just below each step of its CRT width",
 }
+STRENGTHENED.update({
+ ("C06","r5m4"): "Zhang's strong pseudoprimes to the first 14, 15, 17, 19 primes (p(2p-1)) as multiprecision inputs",
+ ("C17","r6m1"): "SmoothBase / P-1 blocks at B1 = q + 1 for every proper prime power q",
+ ("C01","r6m1"): "answers with two or more entries above one machine word (pq of 132..160 bits, pqr of 200 bits through the sieves)",
+ ("C01","r6m3"): "structured P-1 inputs p^2 q [r]: p and q leave stage 1 in different blocks (shape sp2q)",
+ ("C01","r6m4"): "volume: several hundred plain 108/120-bit semiprimes through SIQS (branches taken by a fraction of a percent of the inputs)",
+ ("C10","r6m1"): "operands whose MONTGOMERY representatives are n-1..n-3 with n = 2^bits - small (pattern mtop) at every packing-class edge",
+ ("C14","r6m4"): "Gauss on short wide matrices (1x70 .. 3x300: kernels of 65..300 dimensions)",
+ ("C18","r6m2"): "one case in three writes into a directory that already holds the relation file of another discriminant",
+ ("C19","r6m4"): "the Smith reduction as a presentation (op snf_hom): groups with 3-4 invariant factors, every relation must map to zero",
+})
+
 rows = []
 for f in sorted(glob.glob(os.path.join(os.path.dirname(__file__), "..", "seeded", "*", "*", "meta.json"))):
     m = json.load(open(f))
